@@ -172,5 +172,40 @@ def run(P, tier="quick"):
                 if src.k == "MemberExpr" and src.member in STRUCT_VECTORS:
                     nv += 1
                     R.ok("R32|%s|%s|subscript:%s#%d" % (f.file, f.name, src.member, nv), PROPS)
+    # ---- SYSTEM-SCOPE ---------------------------------------------------------------------------
+    # vs_have_v() and the other vs_* accessors describe the linear system selected by the last vs_start_system()
+    # (vnss_include_v is recomputed per system): a use that no vs_start_system() of the same function dominates reads
+    # whatever the last iteration of some other function left behind (with one system per column: the last column)
+    ACC = ("vs_have_v", "vs_get_v", "vs_have_m", "vs_get_m", "vs_have_s", "vs_get_s", "vs_get_xindex", "vs_get_negative",
+           "vs_get_m_cell", "vs_get_s_cell")
+    nsc = 0
+    for f in P.lib_functions():
+        if f.cfg is None:
+            continue
+        uses = [c for c in f.calls() if c.callee in ACC]
+        if not uses:
+            continue
+        starts = [c for c in f.calls() if c.callee == "vs_start_system"]
+        for i, u in enumerate(uses):
+            nsc += 1
+            if any(_dominates(f.cfg, s_, u) for s_ in starts):
+                continue
+            R.violated(Finding("R32", PROPS, f.file, f.name, "system-scope:%s" % u.callee,
+                               "%s() is used where no vs_start_system() of this function has selected a linear system: it reports "
+                               "the state left by the last system some other function iterated over, not a property of the "
+                               "calibration" % u.callee, u.line))
+            break
+        else:
+            R.ok("R32|%s|%s|system-scope" % (f.file, f.name), PROPS)
+    R.counts["iterator_accessor_uses"] = nsc
     R.check_floor()
     return R
+
+
+def _dominates(cfg, a, b):
+    pa, pb = cfg.pos_of(a), cfg.pos_of(b)
+    if pa is None or pb is None:
+        return False
+    if pa[0] == pb[0]:
+        return pa[1] <= pb[1]
+    return cfg.block_dominates(pa[0], pb[0])
